@@ -209,8 +209,8 @@ TxStep0(m, ev) ==
             ELSE IF ~SegsEq(SubSeq(cp.segs, 1, Len(cp.segs) - 2), m.route) THEN Bad(m, "C15:route-in-forward-open")
             ELSE IF fo.large /\ ~m.extended THEN Bad(m, "C10:fo-order")
             ELSE IF ~fo.large /\ m.extended /\ ~m.largeRefused THEN Bad(m, "C10:fo-order")
-            ELSE IF fo.large /\ fo.size # m.cfgsize THEN Bad(m, "C10:fo-size")
-            ELSE IF ~fo.large /\ m.extended /\ fo.size # 500 THEN Bad(m, "C10:fo-size")
+            ELSE IF fo.large /\ fo.size # m.cfgsize THEN Bad(m, "C10:fo-size+C04:negotiated-size")
+            ELSE IF ~fo.large /\ m.extended /\ fo.size # 500 THEN Bad(m, "C10:fo-size+C04:negotiated-size")
             ELSE IF m.policy = "AllRefused" \/ (fo.large /\ m.policy = "LargeRefused")
                  THEN Good([m EXCEPT !.pend = [kind |-> "reply", bytes |-> RRReply(pf.handle, pf.ctx, FOReplyRefused(q.svc)),
                                                tell |-> [k |-> IF fo.large THEN "largeRefused" ELSE "none"]]])
